@@ -865,7 +865,7 @@ if __name__ == '__main__':
     from math import inf, nan
     import sys
     try:
-        r = data_or_value_routing_roundtrip(True, True, 1, False, False)
+        r = data_or_value_routing_roundtrip(False, True, 0, False, False)
     except BaseException as e:
         print('RAISED', repr(e)); r = False
     print('condition data_or_value_routing_roundtrip:', r)
